@@ -179,6 +179,8 @@ func topFrameInLibrary(block string) bool {
 			continue // not a function line
 		}
 		switch {
+		case strings.HasPrefix(l, "verif/sim/simos.") || strings.HasPrefix(l, "verif/sim/simfilepath.") || strings.HasPrefix(l, "verif/sim/simioutil.") || strings.HasPrefix(l, "verif/sim/simparser."):
+			continue // stand-ins for the standard library: the access belongs to their caller
 		case strings.Contains(l, "snaps_test.") || strings.HasPrefix(l, "verif/"):
 			return false
 		case strings.HasPrefix(l, "github.com/gkampitakis/go-snaps/"):
